@@ -281,6 +281,7 @@ func (e *Engine) assumeValid(st *State, v Value) {
 			st.assume(smt.And(
 				smt.BVCmp("bvsle", z, off), smt.BVCmp("bvsle", off, big),
 				smt.BVCmp("bvsle", z, ln), smt.BVCmp("bvsle", ln, cp), smt.BVCmp("bvsle", cp, big),
+				smt.BVCmp("bvsle", z, smt.BVBin("bvadd", off, cp)), smt.BVCmp("bvsle", smt.BVBin("bvadd", off, cp), big),
 				smt.Implies(smt.Eq(t, e.null()), smt.Eq(cp, z)),
 			))
 		}
